@@ -54,6 +54,8 @@ class OrderModel:
         self.terms = list(terms)
         self.index = {t: i for i, t in enumerate(self.terms)}
         self.ranks: tuple[int, ...] = ()
+        #: truth values imposed on specific atomic conditions
+        self.fixed: dict[tuple, bool] = {}
 
     def rank(self, p: Poly) -> int:
         i = self.index.get(p)
@@ -73,6 +75,8 @@ class OrderModel:
             return True
         if k == "false":
             return False
+        if self.fixed and c in self.fixed:
+            return self.fixed[c]
         if k == "lt":
             return self.rank(c[1]) < self.rank(c[2])
         if k == "le":
